@@ -216,15 +216,22 @@ cdef class LegacyRecordBatch:
         read_size = <Py_ssize_t> hton.unpack_int32(&buf[pos])
         pos += KEY_LENGTH
         if read_size != -1:
+            if read_size < 0:
+                raise CorruptRecordException(
+                    "Invalid key size {}".format(read_size))
             self._check_bounds(pos, read_size)
             key = PyBytes_FromStringAndSize(&buf[pos], read_size)
             pos += read_size
         else:
             key = None
         # Read value
+        self._check_bounds(pos, VALUE_LENGTH)
         read_size = <Py_ssize_t> hton.unpack_int32(&buf[pos])
         pos += VALUE_LENGTH
         if read_size != -1:
+            if read_size < 0:
+                raise CorruptRecordException(
+                    "Invalid value size {}".format(read_size))
             self._check_bounds(pos, read_size)
             value = PyBytes_FromStringAndSize(&buf[pos], read_size)
             pos += read_size
